@@ -1,5 +1,6 @@
 PROP = {
-    "lean_modules": ["GunYu.Props.C20", "GunYu.Props.C20Whole", "GunYu.Props.C20Rerun"],
+    "lean_modules": ["GunYu.Props.C20", "GunYu.Props.C20Whole", "GunYu.Props.C20Rerun", "GunYu.Props.C20Worker",
+                     "GunYu.Props.C20Collide", "GunYu.Props.C20Conc"],
     "audit_namespaces": ["GunYu.Props.C20"],
     "required_theorems": [
         "GunYu.Props.C20.replace_final",
@@ -55,8 +56,55 @@ PROP = {
         "GunYu.Props.C20.rerun_replace_converges_bisync",
         "GunYu.Props.C20.rerun_ignore_keeps_partial",
         "GunYu.Props.C20.rerun_error_stuck",
+        # session 4: the worker loop as it is in the code (filters, TargetDb / TargetDbMap, replaceHashTag inside the model)
+        "GunYu.Props.C20.whole_worker_bisync_stream",
+        "GunYu.Props.C20.stream_targetGroups",
+        "GunYu.Props.C20.mapG_good",
+        "GunYu.Props.C20.whole_workerF_plain",
+        "GunYu.Props.C20.whole_workerF_bisync",
+        "GunYu.Props.C20.filtered_untouched",
+        "GunYu.Props.C20.replace_whole_workerF",
+        "GunYu.Props.C20.ignore_whole_workerF",
+        "GunYu.Props.C20.seq_worker_plain_stream",
+        "GunYu.Props.C20.seq_worker_bisync_stream",
+        "GunYu.Props.C20.seq_workerF_plain",
+        "GunYu.Props.C20.seq_workerF_bisync",
+        # two source cells on one target cell, decided (Props/C20Collide.lean)
+        "GunYu.Props.C20.seq_workerF",
+        "GunYu.Props.C20.collide_replace_last_wins",
+        "GunYu.Props.C20.collide_ignore_keeps",
+        "GunYu.Props.C20.collide_ignore_first_wins",
+        "GunYu.Props.C20.collide_error_stops",
+        # N workers on one keyspace, any interleaving (Props/C20Conc.lean)
+        "GunYu.Props.C20.route_keyed",
+        "GunYu.Props.C20.group_one_worker",
+        "GunYu.Props.C20.route_same_target_key",
+        "GunYu.Props.C20.queueOf_sublist",
+        "GunYu.Props.C20.mem_queueOf",
+        "GunYu.Props.C20.queueOf_only",
+        "GunYu.Props.C20.conc_boundary",
+        "GunYu.Props.C20.conc_quiescent",
+        "GunYu.Props.C20.conc_halted_frozen",
+        "GunYu.Props.C20.conc_is_one_worker",
+        # after the fourth review
+        "GunYu.Props.C20.seqW_workerF",
+        "GunYu.Props.C20.replace_whole_workerF_bisync",
+        "GunYu.Props.C20.ignore_whole_workerF_bisync",
+        "GunYu.Props.C20.entryNoFail_of_good",
+        "GunYu.Props.C20.no_worker_cancels",
+        "GunYu.Props.C20.stream_take",
+        "GunYu.Props.C20.conc_held_unchanged",
+        "GunYu.Props.C20.conc_held_frozen",
     ],
-    "expected_facts": {},
+    "expected_facts": {
+        "c20_distribute": '{ var e *rdb.BinEntry var ok bool var idx uint32 for { select { case e, ok = <-rdbPipe: if !ok { return nil } if e.Err != nil { return e.Err } if e.Done { fullDone.Store(true) return nil } if useBisyncGlobalLane && ro.bisyncRdbIsGlobalEntry(e) { select { case globalPipe <- e: case <-ctx.Done(): return ctx.Err() } continue } if len(e.Key) > 0 || (e.ObjectParser != nil && e.ObjectParser.Type() != rdb.RdbObjectFunction) { routeKey := e.Key if ro.cfg.ReplaceHashTag { routeKey = bytes.Replace(routeKey, []byte("{"), []byte(""), 1) routeKey = bytes.Replace(routeKey, []byte("}"), []byte(""), 1) } idx = util.FnvHash(routeKey) % pipeLen } else { idx = (idx + 1) % pipeLen } select { case pipes[idx] <- e: case <-ctx.Done(): return ctx.Err() } case <-ctx.Done(): return ctx.Err() } } }',
+        "c20_workers": 'for i := 0; i < ro.cfg.ReplayRdbParallel; i++ { pp := pipes[i] usync.SafeGo(func() { if ro.bisyncEnabled() { errChan <- ro.rdbReplayBisync(ctx, reader.RunId(), reader.Left(), pp) return } errChan <- ro.rdbReplay(ctx, pp) }, func(i interface{}) { errChan <- fmt.Errorf("panic: %v", i) }) }',
+        "c20_route": 'if len(e.Key) > 0 || (e.ObjectParser != nil && e.ObjectParser.Type() != rdb.RdbObjectFunction) { routeKey := e.Key if ro.cfg.ReplaceHashTag { routeKey = bytes.Replace(routeKey, []byte("{"), []byte(""), 1) routeKey = bytes.Replace(routeKey, []byte("}"), []byte(""), 1) } idx = util.FnvHash(routeKey) % pipeLen } else { idx = (idx + 1) % pipeLen }',
+        "c20_loop_plain": 'select { case e, ok = <-pipe: if !ok { return nil } if e.Err != nil { return e.Err } if e.Done { return nil } case <-ctx.Done(): return nil } ;; filterOut := false ;; if ro.outFilter.FilterDb(int(e.DB)) { filterOut = true } else { if tdb, ok := ro.selectDB(currentDB, int(e.DB)); ok { currentDB = tdb err = redis.SelectDB(cli, uint32(currentDB)) if err != nil { return err } } if ro.outFilter.FilterKey(util.BytesToString(e.Key)) || ro.outFilter.FilterSlot(util.BytesToString(e.Key)) || ro.bisyncNsFilter.FilterKey(util.BytesToString(e.Key)) { filterOut = true } } ;; if filterOut { ro.rdbFilterCounterAdd(1) } else { ro.rdbSendCounterAdd(1) err := replay.Replay(e) if err != nil { return err } } ;; pingFn(filterOut)',
+        "c20_loop_bisync": 'select { case e, ok := <-pipe: if !ok || e.Done { return nil } if e.Err != nil { return e.Err } filterOut := false if ro.outFilter.FilterDb(int(e.DB)) { filterOut = true } else { if tdb, ok := ro.selectDB(currentDB, int(e.DB)); ok { currentDB = tdb if err := redispkg.SelectDB(cli, uint32(currentDB)); err != nil { return err } } if ro.outFilter.FilterKey(string(e.Key)) || ro.outFilter.FilterSlot(string(e.Key)) || isBisyncNamespaceKey(string(e.Key)) { filterOut = true } } if filterOut { ro.rdbFilterCounterAdd(1) continue } unit, skip, err := ro.buildBisyncRdbReplayUnit(cli, fullSyncOffset, e, state) if err != nil { return err } if skip || unit == nil { continue } ro.rdbSendCounterAdd(1) if err := ro.execBisyncRdbUnit(cli, runID, unit); err != nil { return err } case <-ctx.Done(): return nil }',
+        "c20_selectDB": '{ if originDB == -1 { return currentDB, false } targetDB := originDB if ro.cfg.TargetDb != -1 { targetDB = ro.cfg.TargetDb } else if tdb, ok := ro.cfg.TargetDbMap[originDB]; ok { targetDB = tdb } return targetDB, targetDB != currentDB }',
+        "c20_fnv": '{ hash := fnv.New32a() hash.Write(data) return hash.Sum32() }',
+    },
     "harness": [
         {"name": "C20", "pkg": "./pkg/rdbrestore/", "test": "TestVerifC20"},
         {"name": "C20S", "pkg": "./syncer/", "test": "TestVerifC20Syncer"},
@@ -90,16 +138,52 @@ PROP = {
             "harness runs an INTERLEAVED schedule (entry n+1 parsed only after entry n was replayed; monitor: all bins of a value carry "
             "the key of its first bin) and the send mode a GATED source (the snapshot arrives in two parts with quiescence in between, "
             "every 2nd byte offset, tagged keys, split values, 1-2 workers). "
+            "SESSION 4. The driver maps nothing any more: TargetDb / TargetDbMap / replaceHashTag / the output filter (DB black list, "
+            "key prefix black list incl. the reserved prefixes read from the real constants) are handed to the model's worker loop "
+            "runWorkerF (Model/RestoreWorker.lean) and configured on the REAL RedisOutput (cfg.Filter -> NewRedisOutput -> outFilter). "
+            "New scopes, all three one-worker modes and both send modes: exhaustive-collide (two snapshot keys on ONE target cell: "
+            "TargetDb / non-injective TargetDbMap with one key name in two source DBs, {a}b0 + ab0 under replaceHashTag, a key twice "
+            "in one DB; x policy x restore x value shapes incl. split values x cell held or not: 144 cases per mode), exhaustive-filter "
+            "(DB black list / key prefixes x policy x restore x which cells are held x TargetDbMap; a filtered key as FIRST entry of "
+            "its DB: 180 per mode), GenCollide in 1/6 of the random cases (third colliding key, filters on top, TTLs). Send modes: the "
+            "real SendRdb with 2-4 workers, gated source, colliding pair hashing to different workers by SOURCE key. New monitors "
+            "(Go, independent of the model): CheckSeq - the policy applied literally key after key to the target cell of every key that "
+            "passes the filter (a key created by an earlier entry of this run IS an existing key): outcome, failing key, final value of "
+            "every cell; CheckCells - the same per cell for N workers (exact under replace/ignore and under error without failure; "
+            "under a failure: held cells untouched); CheckFiltered - a filtered key's own cell and the cell it would be mapped to "
+            "unchanged and named by no request; key-on-two-connections - everything replayed to one target key comes from ONE "
+            "connection. New ops: c20route (partition of the snapshot's keys over the workers as the real distributor made it - "
+            "connection of the first request naming the key - against routeAll), c20fnv (util.FnvHash against fnv32a, 300 keys incl. "
+            "the empty one). Source facts (extract/c20.go): the routing statement of distributeTask, the loop bodies of rdbReplay / "
+            "rdbReplayBisync after the receive, selectDB, FnvHash. "
+            "AFTER THE FOURTH REVIEW. Back-pressure: scope send-backpressure (72 runs: 14-16 keys incl. split hashes, two DBs, a "
+            "tagged pair on one target key, policy x 2-4 workers x config.RdbPipeSize = 1 or 2 entries per worker x replaceHashTag, the "
+            "target double answering every request after 1 ms virtual time - tg.Hook): every send of the distributor meets a full "
+            "pipe; judged by key-on-two-connections / c20route / CheckParallel / CheckCells. Source facts c20_distribute (the WHOLE "
+            "closure, the send `pipes[idx] <- e` included) and c20_workers (worker i reads pipes[i]). PINS vs VIOLATIONS: on a "
+            "collision cell (two snapshot keys replayed to it by configuration - outside the property's quantifier) the monitors do "
+            "not judge WHICH value wins nor a stop caused by a key this run created, and key-on-two-connections is not raised for "
+            "a colliding key: that behaviour is pinned by the correspondence (request diff of c20 for one worker; c20pin - what each "
+            "cell ends with: nothing / the target's own / the value of snapshot key i / other, and the outcome, N workers against ONE "
+            "worker of the model - and c20route, which prints `multi` for a key seen on two connections): a change shows as a broken "
+            "tie (no-failing-input-found) naming the pinned reading. Still violations on a collision cell: a MERGED value "
+            "(collide-merged: none of the snapshot values) and, under ignore / error, any change of a cell the target held. "
             "distinct_nontrivial = distinct cases with at least one pre-existing key",
     "trusted": [
         "Redis semantics of EXISTS/DEL/PEXPIRE/RESTORE[REPLACE]/BUSYKEY and of native data commands (create-or-append, TTL kept) "
         "as transcribed in Model/Restore.lean (objEffect) and as implemented by the target double pkg/vfdoubles",
         "the expansion of a chunk into commands and the DUMP payload are inputs here (their correctness is C03)",
+        "the output filter's decisions (FilterDb, FilterKey || FilterSlot || namespace filter) are inputs of the worker-loop model "
+        "(their correctness is C10); Redis executes one request atomically and a connection's requests in order (the step of the "
+        "concurrent model); a Go channel delivers in FIFO order",
     ],
     "assumptions": [
-        "the chunks of one key reach the same replay worker in order (sendRdb routes by fnv(key); an entry with an EMPTY key is "
-        "routed round-robin, so with replayRdbParallel > 1 a split value under the key \"\" would not satisfy this)",
-        "no other writer touches the key between the probe and the writes (single replay worker per key)",
+        "the chunks of one key - and everything else that is replayed to the same target key - reach the same replay worker in "
+        "snapshot order: PROVED on the model of the distributor (group_one_worker, route_same_target_key, queueOf_sublist, "
+        "mem_queueOf; route = fnv32a(key the entry is replayed to) mod n, the empty key included) and monitored on the real SendRdb "
+        "(key-on-two-connections, c20route); what is left as an assumption is that a Go channel is FIFO",
+        "no writer OUTSIDE the tool touches a key between the probe and the writes; that the tool's own other workers never "
+        "matter is proved (conc_boundary)",
         "bidirectional replay: a RESTORE refused with 'Bad data format' inside the unit's EXEC fails the replay (err-bad) with "
         "nothing merged: modelled (buildUnit -> errBad), proved (bad_data_bisync_fails) and exercised (double's BadRestore inside EXEC)",
         "window between probe and write: exercised for the bidirectional RESTORE path only (BUSYKEY: ignore/error keep the concurrent "
@@ -128,21 +212,47 @@ PROP = {
         "later chunks carry the key's expiry or none (Value.exp): holds for the loader before and after the D8 repair",
     ],
     "partial": [
-        "snapshot level, what is left after the whole-run theorems (Props/C20Whole.lean: one worker; the run over a ++ b is the "
-        "run over a CONTINUED over b by the same loop - runPlain_split / runBisync_split, every split point; every key of a snapshot of "
-        "pairwise distinct keys, every pre-existing key and every other cell accounted for, per policy, plain and bidirectional, one "
-        "DB and several DBs with the worker's SELECT; keyless entries (AUX fields - which carry the DB of their place in the file, "
-        "loader.go:151, and make the worker SELECT - and function libraries, db = -1) may stand ANYWHERE in the stream: "
-        "whole_*_stream, runPlain_strip / runBisync_strip / runWG_strip): "
-        "(a) TargetDb / TargetDbMap stay correspondence-only (the driver maps the entries' DBs before runWorker); the worker's "
-        "filter branch (FilterDb before SELECT, key/slot filters after) is not in runWorker; "
-        "(b) whole_worker_bisync has no *_stream form (the plain worker has); "
-        "(c) the groups' keys (cells) must be pairwise distinct AFTER DB mapping and key rewriting - TargetDb >= 0 with one key "
-        "name in two source DBs, a non-injective TargetDbMap, {a}b + ab under replaceHashTag (routed by the SOURCE key, possibly to "
-        "two workers) are excluded, not decided; a foreign file with a key twice is not refused by the parser; "
-        "(d) one worker: nothing composes N concurrent workers on one keyspace (under `error` the other workers go on writing "
-        "until the cancel reaches them: 'every other cell untouched' is this worker's cells); one `now` for the whole run",
-        "replaceHashTag: the worker replays `retag e` - applied in the driver; proved that retag keeps a GOOD key group good on the "
+        "snapshot level, what is left after the whole-run theorems. CLOSED in session 4: (a) TargetDb / TargetDbMap (selectDB) and "
+        "the filter branch (FilterDb before SELECT, key filters after) are INSIDE the model's worker loop runWorkerF (stepF = the loop "
+        "body); runWorkerF_eq reduces it to the plain loop over the mapped stream, whole_workerF_* / filtered_untouched state the "
+        "policy per (mapped DB, rewritten key) and that filtered entries touch nothing; (b) whole_worker_bisync_stream; (c) the "
+        "collisions are DECIDED, not excluded: seq_workerF_* need NO distinctness - outcome and keyspace of the real loop are the "
+        "policy applied literally group after group (polSeq: a key an earlier entry of this run created is an existing key) - "
+        "collide_replace_last_wins / collide_ignore_first_wins / collide_ignore_keeps / collide_error_stops, run on the real code "
+        "(TargetDb, non-injective map, {a}b0+ab0, a key twice in one DB); the N-worker form of the hashtag collision was a genuine "
+        "defect (D32, fixed 630424b); consequence reported, not a finding: under `error` a configuration that maps two source cells "
+        "to one target cell can never complete a full sync, even on an empty target; (d) N workers on one keyspace: Sys / Sys.step / "
+        "Sys.run (any schedule, one target request per step), conc_boundary (at every entry boundary of worker i the cells of its "
+        "keys are what it ALONE makes of the entries it has taken), conc_quiescent, conc_is_one_worker (replace / ignore: N workers "
+        "= one worker, cell by cell), conc_halted_frozen (after a worker has observed the cancel nothing of its keys changes). "
+        "AFTER THE FOURTH REVIEW: the environment's moves are in Sys (Move.cancel = cancel() from the distributor's error or the "
+        "parent context, Move.close = pipes closed after a prefix) and every conc_* theorem holds for schedules containing them; "
+        "conc_quiescent / conc_is_one_worker ask for `no pipe cut` and `no cancel from outside`; that no WORKER raises the cancel "
+        "under replace / ignore is PROVED (no_worker_cancels) - conc_is_one_worker no longer assumes it; the N-worker ignore / error "
+        "corollary is proved (conc_held_unchanged: a held cell is as it was at every entry boundary of its worker; conc_held_frozen: "
+        "and for ever once that worker has halted, e.g. observed the cancel); filtered_untouched needs no distinctness and no "
+        "assumption on payloads (seqW_workerF + seqW_frame); replace/ignore_whole_workerF have bidirectional twins. "
+        "STILL PARTIAL: between two entry boundaries of a worker (requests of one entry pending) the held-cell statement is not "
+        "stated (the pending requests are probe-only or concern a cell found absent: argued, not proved); a worker never dies "
+        "INSIDE an entry in Sys (WOK.halt: SELECT error -> `return err` before the entry, a connection error after DEL, "
+        "NewRedisConn failing before the first entry are not modelled - the double never fails a SELECT); TargetDb < -1: the model "
+        "sends to DB 0, the real SELECT 4294967294 fails (config.fix does not exclude it); the PING of pingFn after 3 s of "
+        "filtered entries is not modelled (no keyspace effect); the cluster global lane (rdbReplayBisyncGlobal / globalPipe: AUX and "
+        "function entries bypass idx) is absent - keyless entries only; Req.marker has no keyspace effect in the model: the N "
+        "workers' marker SETs hit shared control keys outside the snapshot's cells; a bidirectional unit's commands are applied "
+        "one by one in Sys, Redis applies them at EXEC (more intermediate states, same cells by locality). "
+        "The filter DECISIONS (FilterDb / FilterKey / FilterSlot / namespace filter) are parameters of the model "
+        "(their correctness is C10); the harness configures DB black lists and key prefix black lists only (no white lists, no slot "
+        "filters) and models them by the documented meaning; a TargetDb below -1 (SELECT fails) is not modelled; the concurrent model "
+        "has pre-filled pipes and takes an entry, decides on the probe's answer and issues the SELECT in ONE step (the real "
+        "schedules are among the modelled ones: argued in Model/RestoreWorker.lean, not proved against a finer model); "
+        "conc_is_one_worker ASSUMES that no cancel was raised (that no entry fails under replace / ignore is the one-worker "
+        "theorems' `out = ok`, not re-proved inside Sys); under `error` with a failure the cells of the OTHER workers are a prefix of "
+        "their one-worker run (conc_boundary), which prefix is the scheduler's choice; that a worker's error makes SendRdb fail and "
+        "writes no checkpoint is C04's; the interleavings the real code is RUN under are those the Go scheduler and the gated "
+        "source produce (2-4 workers), not all; one `now` for the whole run; the target double does not expire keys while a run "
+        "lasts (collision cases are generated with no / a future expiry)",
+        "replaceHashTag: the worker replays `retag e` - now applied INSIDE the model's loop body (stepF); proved that retag keeps a GOOD key group good on the "
         "rewritten key (retag_group + retag_value, given every command has its key argument: args non-empty, XGROUP with >= 2) and "
         "hence replace_whole_retag (Nodup of the REWRITTEN keys); that the real code equals `replay (retag e)` is correspondence "
         "(D27, D28, D29 were found there)",
@@ -152,8 +262,7 @@ PROP = {
         "'module object requires RESTORE replay' whatever the policy and whether or not the key exists (plain path: before the probe): "
         "modelled so (errModule), monitor: key unchanged; the policy theorems exclude it through Value",
         "expiry: snapshot_exp_abs covers tool clock = target clock and a future expiry only",
-        "two snapshot keys that rewrite to the same target key ({a}b and ab) / two source DBs mapped onto one target DB with the same "
-        "key name: the second meets the first as a pre-existing key; not generated, meaning left to the policy",
+        "two snapshot keys on one target key: see the first item (decided, generated, proved)",
     ],
 }
 
@@ -167,6 +276,13 @@ MANIFEST = {
             "with pairwise distinct keys (after DB mapping and key rewriting), keyless entries anywhere between, from any state and target: every key gets its policy's effect on what it held at the START "
             "(replace: snapshot value; ignore: kept / snapshot value; error: stop at the first held key, keys before it written, all "
             "else untouched; bidirectional: a payload the target cannot load stops the run there, nothing merged), every other cell "
+            "[session 4: the same for the loop AS IT IS IN THE CODE - filter branch, TargetDb / TargetDbMap, replaceHashTag inside the model "
+            "(runWorkerF): policy per (mapped DB, rewritten key), filtered entries touch nothing; WITHOUT the distinctness assumption the "
+            "run is the policy applied literally group after group (a key created earlier in the run is an existing key): replace - the "
+            "last of colliding keys wins, ignore - the first, error - the run stops; N workers in ANY interleaving: routing by the key an "
+            "entry is replayed to puts everything of one target key on one worker in order (D32 fixed), each worker's cells are what it "
+            "alone would make of its pipe, under replace / ignore N workers = one worker, after a worker observed the cancel its cells "
+            "never change] "
             "untouched - one DB, and several DBs with the worker's SELECT (stated on runWorker). RESTART (fresh worker, entry 0, the "
             "target a dead first attempt left; cut at any entry): replace converges to the snapshot; ignore keeps a partly written "
             "chunked key truncated and succeeds; error is stuck on the first written key - proved and run on the real code. The models of RdbReplay.Replay, buildBisyncRdbReplayUnit/execBisyncRdbUnit and the two worker loops are tied "
@@ -174,5 +290,5 @@ MANIFEST = {
             "independent Go monitor checks the property itself on the real code's final keyspace.",
     "note": "trusted: Lean kernel, transcribed Redis semantics of the few commands used, target double, harness; models of the "
             "REPAIRED code (D7, D21, D24, D25, D27, D28, D29 fixed)",
-    "technique": "Lean 4 proof (induction over the chunk list, per-key object semantics, frame lemmas; generic induction over key groups for any runner that splits) + differential correspondence + monitor",
+    "technique": "Lean 4 proof (induction over the chunk list, per-key object semantics, frame lemmas; generic induction over key groups for any runner that splits; refinement of the worker loop with filters / DB mapping to the plain loop; an invariant of the interleaved N-worker system: per-worker potential function + locality) + differential correspondence + monitors + source facts",
 }
